@@ -168,4 +168,6 @@ def run(ctx):
     r5 = rep.rule('C06-R5', 'on any port: synackcookie::generate returns Err only when an endpoint field is absent or the two addresses are of different families - never depending on the value of a port or address', floor=1)
     from rules import silence
     silence.run_for(ctx, r5, ['synackcookie::generate'], silent='Err', loud='Ok')
+    hand_over_sound(ctx, 'C06')
+
 
